@@ -638,6 +638,7 @@ def opPyOp (j : Json) : Json :=
     | "le", [a, b] => Py.le a b
     | "gt", [a, b] => Py.gt a b
     | "ge", [a, b] => Py.ge a b
+    | "append", [a, b] => Py.append_ a b
     | "is", [a, b] => Py.is_ a b
     | "isnot", [a, b] => Py.isnot a b
     | "in", [a, b] => Py.in_ a b
